@@ -76,8 +76,9 @@ ASSUMPTIONS = [
     'output type from the first point)',
     'point arrays are passed as (d, N) (points are columns), 1-d also as '
     '(N,) with N >= 2',
-    'integer value arrays with linear / per-axis schemes: known finding F17 '
-    '(counted, not evaluated)',
+    'integer value arrays with linear / per-axis schemes (F17, fixed) are '
+    'compared with the float blend; out= is not exercised there (out must '
+    'have the integer dtype of the values and cannot hold the blend)',
 ]
 RULE = ('Hypothesis draws a mode and its data; non-trivial = at least one '
         'oracle comparison evaluated and (>= 2 axes or non-uniform axis or '
@@ -293,8 +294,6 @@ def _axis_points(draw, c, lattice, first=False):
     n = len(c)
     cf = np.array(c, dtype=np.float64)
     m = draw(st.integers(1, 4))
-    if first and m == 1 and draw(st.integers(0, 5)):
-        m = 2      # a one-point first mesh axis is a known finding
     vals, kinds = [], []
     for _ in range(m):
         k = draw(st.sampled_from(POINT_KINDS))
@@ -370,10 +369,6 @@ def _interp_case(draw):
                                  'linear', 'peraxis', 'peraxis', 'peraxis']))
     if dtype == 'U':
         kind = 'nearest'
-    if dtype.startswith('int') and kind != 'nearest' and \
-            draw(st.integers(0, 5)):
-        # F17 region: keep a trickle only
-        kind = 'nearest'
     if kind == 'peraxis':
         form = draw(st.sampled_from(['list', 'list', 'list', 'string']))
         if form == 'string':
@@ -428,9 +423,6 @@ def _resample_case(draw):
             tshape.append(max(1, n // 2))
         else:
             tshape.append(draw(st.integers(1, 7)))
-        if ndim > 1 and not tshape[:-1] and tshape[0] == 1 and \
-                draw(st.integers(0, 7)):
-            tshape[0] = 2      # one-point first axis: known finding C15-K1
         tnob.append([draw(st.booleans()) and tshape[-1] > 1,
                      draw(st.booleans()) and tshape[-1] > 1])
     if target == 'same':
